@@ -116,16 +116,23 @@ def insertByEst (x : Nat × Ev) : List (Nat × Ev) → List (Nat × Ev)
   | [] => [x]
   | y :: ys => if x.2.est ≤ y.2.est then x :: y :: ys else y :: insertByEst x ys
 
-/-- events that commute with every event of another transaction: statements and rollbacks -/
-def Ev.free (e : Ev) : Bool :=
+/-- transactions of which no event modified a row, according to the observation -/
+def effectFree (p : Pending) : List String :=
+  let all := p.flatten
+  (all.filter (fun e => !all.any (fun x => x.txn == e.txn && x.wrote))).map (·.txn) |>.eraseDups
+
+/-- events that commute with every event of another transaction: statements, rollbacks, and the commit of a transaction
+    that wrote nothing -/
+def Ev.free (noEff : List String) (e : Ev) : Bool :=
   match e.op with
   | .exec _ _ => true
   | .rollback _ => true
+  | .commit _ => noEff.contains e.txn
   | _ => false
 
-def candidates (p : Pending) : List (Nat × Ev) :=
+def candidates (noEff : List String) (p : Pending) : List (Nat × Ev) :=
   let hs := (heads p 0).filter (fun h => eligible p h.2)
-  match hs.find? (fun h => h.2.free) with
+  match hs.find? (fun h => h.2.free noEff) with
   | some h => [h]
   | none => hs.foldr insertByEst []
 
@@ -152,31 +159,60 @@ def isBegin (e : Ev) : Bool :=
   | .begin _ => true
   | _ => false
 
+def admissible (render : Render) (α : Spec.State) (p : Pending) (c : Nat × Ev) : Bool :=
+  let s := Spec.step α c.2.op
+  expectOk render c.2.expect s.2 && (!isBegin c.2 || lookahead render s.1 ((p.getD c.1 []).drop 1))
+
+/-- order in which the candidates are tried.  A begin whose look-ahead succeeds is placed at once, without alternative
+    (placing a begin as early as it fits hurts nobody: the others do not see it, and its own reads have been checked);
+    otherwise the remaining events (commits of writers), those first after which some begin that does not fit yet would
+    fit (a commit somebody is waiting for), ties in the order of the estimated instants. -/
+def rank (render : Render) (α : Spec.State) (p : Pending) (cands : List (Nat × Ev)) : List (Nat × Ev) :=
+  let begins := cands.filter (fun c => isBegin c.2)
+  match begins.find? (admissible render α p) with
+  | some b => [b]
+  | none =>
+    let others := cands.filter (fun c => !isBegin c.2)
+    let helps (c : Nat × Ev) : Bool :=
+      let s := Spec.step α c.2.op
+      expectOk render c.2.expect s.2 && begins.any (fun w => w.1 != c.1 && admissible render s.1 p w)
+    others.filter helps ++ others.filter (fun c => !helps c)
+
 /-- depth-first search for a schedule; `d` bounds the depth (number of events), the second component of the result is
     what is left of the node budget -/
-def search (render : Render) : Nat → Nat → Spec.State → Pending → List Nat → Option (List Nat) × Nat
+def search (render : Render) (noEff : List String) : Nat → Nat → Spec.State → Pending → List Nat → Option (List Nat) × Nat
   | 0, b, _, p, acc => (if p.all List.isEmpty then some acc.reverse else none, b)
   | d + 1, b, α, p, acc =>
     if p.all List.isEmpty then (some acc.reverse, b)
     else
-      (candidates p).foldl (fun (r : Option (List Nat) × Nat) (c : Nat × Ev) =>
+      (rank render α p (candidates noEff p)).foldl (fun (r : Option (List Nat) × Nat) (c : Nat × Ev) =>
         match r with
         | (some l, b) => (some l, b)
         | (none, 0) => (none, 0)
         | (none, b + 1) =>
-          let s := Spec.step α c.2.op
-          if expectOk render c.2.expect s.2 && (!isBegin c.2 || lookahead render s.1 ((p.getD c.1 []).drop 1)) then
-            search render d b s.1 (dropHead p c.1) (c.1 :: acc)
+          if admissible render α p c then
+            search render noEff d b (Spec.step α c.2.op).1 (dropHead p c.1) (c.1 :: acc)
           else (none, b)) (none, b)
+
+/-- diagnostics only: schedules greedily (first admissible candidate, no backtracking) and reports how far it got and
+    which events were pending when it got stuck -/
+def greedyProbe (render : Render) (noEff : List String) : Nat → Spec.State → Pending → Nat → Nat × List (Nat × Ev)
+  | 0, _, p, n => (n, heads p 0)
+  | d + 1, α, p, n =>
+    if p.all List.isEmpty then (n, [])
+    else
+      match (rank render α p (candidates noEff p)).find? (admissible render α p) with
+      | none => (n, heads p 0)
+      | some c => greedyProbe render noEff d (Spec.step α c.2.op).1 (dropHead p c.1) (n + 1)
 
 def totalEvents (p : Pending) : Nat := (p.map List.length).foldl (· + ·) 0
 
 def findSchedule (render : Render) (cat : Catalog) (budget : Nat) (p : Pending) : Option (List Nat) :=
-  (search render (totalEvents p) budget (Spec.State.init cat) p []).1
+  (search render (effectFree p) (totalEvents p) budget (Spec.State.init cat) p []).1
 
 /-- did the search give up for lack of budget (rather than exhaust the possible orders)? -/
 def searchExhaustedBudget (render : Render) (cat : Catalog) (budget : Nat) (p : Pending) : Bool :=
-  (search render (totalEvents p) budget (Spec.State.init cat) p []).2 == 0
+  (search render (effectFree p) (totalEvents p) budget (Spec.State.init cat) p []).2 == 0
 
 /-- **The checker.**  `budget` bounds the search only; acceptance is decided by `verify`. -/
 def checkSerialSI (render : Render) (cat : Catalog) (budget : Nat) (p : Pending) : Bool :=
